@@ -16,6 +16,9 @@ CLAUSE = CLAUSE + (" In vbi_event_handler_add (which removes *every* record of a
                    "every Teletext (re)activation in vbi_event_enable reaches vbi_teletext_desync (through "
                    "vbi_teletext_channel_switched or directly), so no page in progress from before the handler was removed is "
                    "completed with rows received after it was registered again.")
+CLAUSE = CLAUSE + (" (RF-WHO) a handler record's callback and user pointer are written only into a record allocated on the same "
+                   "path (never into one reached through the list); (RF-UAF) no function continues a walk from a successor pointer it "
+                   "read before calling something that may free handler records.")
 NOT_DECIDED = "delivery order and exactly-once delivery as such, nested re-entrancy depth, user-pointer identity (values)."
 
 UNIT = "src/vbi.c"
@@ -117,6 +120,8 @@ def run(ctx, run):
     _walk_goes_on(ctx, run, P.need("vbi_event_handler_add", UNIT))
     _activation_desyncs(ctx, run)
     _gate_mask_agreement(ctx, run)
+    _identity_written_at_creation(ctx, run)
+    _no_cached_successor_across_free(ctx, run)
 
 
 def _unlinked_before(f, free_eid, eh):
@@ -547,4 +552,206 @@ def _and_mask(f, node):
             c = ex.const(f, x)
             if c is not None:
                 return c
+    return None
+
+
+ALLOCATORS = ("calloc", "malloc", "vbi_malloc", "realloc")
+
+
+def _identity_written_at_creation(ctx, run):
+    """RF-WHO: a handler record's identity (the callback and its user pointer) is written only
+    into a record the same function has just allocated.  A store into a record reached through
+    the list changes the user pointer an already registered handler is called with - and the
+    key vbi_event_handler_unregister() looks it up by."""
+    P = ctx.prog
+    n = 0
+    for f in P.funcs:
+        if not f.file.startswith("src/"):
+            continue
+        for bid, i in flow.all_events(f):
+            for lhs, var, op, rhs in flow.stores(f, i):
+                if lhs is None:
+                    continue
+                l = f.exprs[ex.skip(f, lhs)]
+                if l["k"] != "mem" or l.get("in") != "event_handler" or l["member"] not in ("user_data", "handler"):
+                    continue
+                n += 1
+                run.touch(f)
+                r = ex.root(f, lhs)
+                name = f.exprs[r]["name"] if r is not None else None
+                pos = flow.elem_pos(f)
+                fresh = False
+                for b2, j in flow.all_events(f):
+                    for l2, v2, o2, r2 in flow.stores(f, j):
+                        if r2 is None or o2 != "=":
+                            continue
+                        tgt = v2["name"] if v2 is not None else (f.exprs[ex.skip(f, l2)].get("name") if f.exprs[ex.skip(f, l2)]["k"] == "ref" else None)
+                        if tgt != name:
+                            continue
+                        rr = f.exprs[ex.skip(f, r2)]
+                        while rr["k"] == "cast":
+                            rr = f.exprs[ex.skip(f, rr["c"][0])]
+                        if rr["k"] == "call" and rr.get("callee") in ALLOCATORS:
+                            if (b2 == bid and pos[j][1] < pos[i][1]) or (b2 != bid and flow.dominates(f, b2, bid)):
+                                fresh = True
+                key = "RF-WHO:%s:%s-at-creation" % (f.name, l["member"])
+                if fresh:
+                    run.holds("RF-WHO", key, "`%s` writes a record allocated just before in the same function" % ex.pretty(f, i)[:60],
+                              ex.loc(f, i))
+                else:
+                    run.violation("RF-WHO", key, "`%s` overwrites the %s of a handler record that is already in the list (the record "
+                                  "was not allocated on this path): the registered handler is from now on called with another "
+                                  "user pointer and vbi_event_handler_unregister (handler, its_pointer) no longer finds it"
+                                  % (ex.pretty(f, i)[:60], l["member"]), ex.loc(f, i))
+    run.floor("stores to a handler record's identity", n, 4)
+
+
+def _no_cached_successor_across_free(ctx, run):
+    """RF-UAF: a function that walks the handler list and calls something that may free records
+    (vbi_event_handler_add/_remove/_register/_unregister free every matching record, not only
+    the one at hand) must not continue from a successor pointer it read before the call."""
+    P = ctx.prog
+    direct = set()
+    for f in P.funcs:
+        if f.file != UNIT:
+            continue
+        for bid, i in flow.all_events(f):
+            e = f.exprs[i]
+            if e["k"] == "call" and e.get("callee") == "free" and e.get("c"):
+                a = f.exprs[ex.skip(f, e["c"][0])]
+                while a["k"] == "cast":
+                    a = f.exprs[ex.skip(f, a["c"][0])]
+                if "event_handler" in (a.get("t") or ""):
+                    direct.add(f.name)
+    if not direct:
+        raise AnalysisBroken("no function frees a handler record any more")
+    freers = set(direct)
+    changed = True
+    while changed:
+        changed = False
+        for f in P.funcs:
+            if f.file != UNIT or f.name in freers:
+                continue
+            if any(e["k"] == "call" and e.get("callee") in freers for e in f.exprs):
+                freers.add(f.name)
+                changed = True
+    n = 0
+    for f in P.funcs:
+        if not f.file.startswith("src/"):
+            continue
+        calls = [(b, i) for b, i in flow.all_events(f) if f.exprs[i]["k"] == "call" and f.exprs[i].get("callee") in freers]
+        if not calls:
+            continue
+        run.touch(f)
+        # locals holding a successor read from a record
+        for bid, i in flow.all_events(f):
+            for lhs, var, op, rhs in flow.stores(f, i):
+                if rhs is None or op != "=":
+                    continue
+                name = var["name"] if var is not None else (f.exprs[ex.skip(f, lhs)].get("name")
+                                                             if f.exprs[ex.skip(f, lhs)]["k"] == "ref" else None)
+                if name is None:
+                    continue
+                r = f.exprs[ex.skip(f, rhs)]
+                if not (r["k"] == "mem" and r.get("in") == "event_handler" and r["member"] == "next"):
+                    continue
+                n += 1
+                # call reachable from the read, then a read of `name` reachable from the call, `name` not re-assigned
+                pos = flow.elem_pos(f)
+                for cb, ci in calls:
+                    if not _reach_wo_redef(f, (bid, i), (cb, ci), name):
+                        continue
+                    use = _use_after(f, (cb, ci), name)
+                    if use is not None:
+                        run.violation("RF-UAF", "RF-UAF:%s:cached-successor:%s" % (f.name, name),
+                                      "%s() reads `%s` before calling %s(), which may free every record of that handler function - "
+                                      "including the one `%s` points to - and continues the walk from it afterwards (`%s`): a freed "
+                                      "handler record is read" % (f.name, ex.pretty(f, i)[:40], f.exprs[ci].get("callee"), name,
+                                                                  ex.pretty(f, use)[:40]), ex.loc(f, use),
+                                      witness={"cached_at": f.exprs[i]["line"], "freeing_call": f.exprs[ci]["line"]})
+                        break
+                else:
+                    run.holds("RF-UAF", "RF-UAF:%s:cached-successor:%s" % (f.name, name),
+                              "`%s` is not used after a call that may free records" % ex.pretty(f, i)[:40], ex.loc(f, i))
+    run.extra["handler_record_freers"] = sorted(freers)
+    run.note("functions that may free handler records: %s; %d cached successor reads examined" % (", ".join(sorted(freers)), n))
+
+
+def _writes_local(f, i, name):
+    for lhs, var, op, rhs in flow.stores(f, i):
+        if var is not None and var["name"] == name:
+            return True
+        if lhs is not None:
+            l = f.exprs[ex.skip(f, lhs)]
+            if l["k"] == "ref" and l.get("name") == name:
+                return True
+    return False
+
+
+def _reach_wo_redef(f, a, b, name):
+    """event b reachable from just after event a without `name` being re-assigned."""
+    pos = flow.elem_pos(f)
+    (ab, ai), (bb, bi) = a, b
+    seen = set()
+    # scan rest of a's block
+    def scan(bid, start):
+        for j in f.blocks[bid].elems[start:]:
+            if j == bi:
+                return "hit"
+            if flow.is_event(f, j) and _writes_local(f, j, name):
+                return "dead"
+        return "go"
+    r = scan(ab, pos[ai][1] + 1)
+    if r == "hit":
+        return True
+    if r == "dead":
+        return False
+    st = [s for s, _ in f.edges(ab)]
+    while st:
+        n = st.pop()
+        if n in seen:
+            continue
+        seen.add(n)
+        r = scan(n, 0)
+        if r == "hit":
+            return True
+        if r == "dead":
+            continue
+        st.extend(s for s, _ in f.edges(n))
+    return False
+
+
+def _use_after(f, c, name):
+    """first read of local `name` reachable from just after event c without re-assignment."""
+    pos = flow.elem_pos(f)
+    cb, ci = c
+    seen = set()
+
+    def scan(bid, start):
+        for j in f.blocks[bid].elems[start:]:
+            e = f.exprs[j]
+            if e["k"] == "cast" and e["ck"] == "LValueToRValue":
+                x = f.exprs[e["c"][0]]
+                if x["k"] == "ref" and x.get("name") == name:
+                    return j
+            if flow.is_event(f, j) and _writes_local(f, j, name):
+                return "dead"
+        return None
+    r = scan(cb, pos[ci][1] + 1)
+    if r == "dead":
+        return None
+    if r is not None:
+        return r
+    st = [s for s, _ in f.edges(cb)]
+    while st:
+        n = st.pop()
+        if n in seen:
+            continue
+        seen.add(n)
+        r = scan(n, 0)
+        if r == "dead":
+            continue
+        if r is not None:
+            return r
+        st.extend(s for s, _ in f.edges(n))
     return None
